@@ -46,10 +46,11 @@ EXPECTED_PROBES = ["alt_spelling_hit", "with_nested", "with_restored_insert", "w
                    "device_rejected", "device_accepted", "get_missing_raised", "get_default_used",
                    "kw_form", "mapping_value_replaced_subtree", "global_arm", "device_via_defaults_rejected",
                    "device_via_defaults_accepted", "falsy_value_set", "falsy_value_read_with_default",
-                   "same_key_in_mapping_and_kwargs", "doubled_separator_key_in_mapping"]
+                   "same_key_in_mapping_and_kwargs", "doubled_separator_key_in_mapping",
+                   "sequence_value_set", "path_depth_ge_4", "get_override_with"]
 
-NODES = ["n1", "sec_a", "grp_b_c"]
-LEAVES = ["x", "y", "opt_one", "lim_lo_hi", "verbose", "dd__k"]
+NODES = ["n1", "sec_a", "grp_b_c", "Sec_B2"]
+LEAVES = ["x", "y", "opt_one", "lim_lo_hi", "verbose", "dd__k", "Mixed_Case", "k9"]
 # "dd__k" / "dd--k": a FLAT key with a doubled separator.  Only the keyword form turns '__' into a
 # level separator; in a mapping the key is one entry (items with such a segment always travel in
 # the mapping part of a call).
@@ -88,7 +89,7 @@ def setup():
 
 # ------------------------------------------------------------------------------------------
 def _gen_path(r, top_ok=True):
-    shape = r.weighted([(1, 3 if top_ok else 0), (2, 4), (3, 2)])
+    shape = r.weighted([(1, 3 if top_ok else 0), (2, 4), (3, 2), (4, 0.4), (5, 0.2)])
     segs = [r.pick(NODES) for _ in range(shape - 1)] + [r.pick(LEAVES)]
     return {"segs": segs, "dash": [r.chance(0.5) for _ in segs]}
 
@@ -107,6 +108,9 @@ def _gen_items(r, i, n_items=None):
             # mostly unique ints; sometimes a falsy value (0, False, '', None, 0.0)
             val = 1000 + i * 20 + j if not r.chance(0.08) else ["F0", "FFalse", "Fempty", "FNone",
                                                                  "F0.0"][r.randrange(5)]
+            if r.fork("seqval").chance(0.07):
+                # sequences are values: replaced as a whole, never merged
+                val = "L" + str(1000 + i * 20 + j) + r.fork("seqval").pick(["list", "tuple", "nested"])
             items.append({"path": _gen_path(r), "val": val})
     # one call never mentions the same (normalised) path twice, nor a path and its ancestor
     out, seen = [], []
@@ -171,7 +175,8 @@ def _gen_op(r, i, kinds, depth=0):
         return {"op": "refresh"}
     if k == "get":
         p = _gen_path(r) if r.chance(0.8) else {"segs": [r.pick(NODES)], "dash": [r.chance(0.5)]}
-        return {"op": "get", "path": p, "default": r.chance(0.4)}
+        return {"op": "get", "path": p, "default": r.chance(0.4),
+                "override": r.fork("ov").pick([None] * 8 + ["O7", "O0", "OFalse", "Oempty", "ONone"])}
     if k == "device":
         x = r.pick(ACCEPT_DEV) if r.chance(0.35) else r.pick(REJECT_DEV)
         return {"op": "device", "x": x, "via": r.pick(["set", "set", "kw", "set_device", "defaults",
@@ -309,6 +314,21 @@ class _Boom(Exception):
 _FALSY = {"F0": 0, "FFalse": False, "Fempty": "", "FNone": None, "F0.0": 0.0}
 
 
+def _value(code):
+    """String-coded special values of the plan -> python values."""
+    if code in _FALSY:
+        return _FALSY[code]
+    if code.startswith("L"):
+        n = int("".join(ch for ch in code[1:] if ch.isdigit()))
+        kind = code[1 + len(str(n)):]
+        if kind == "list":
+            return [n, n + 1, "s"]
+        if kind == "tuple":
+            return (n, "t")
+        return [{"a": n}, [n, n]]
+    raise ValueError(code)
+
+
 def run(plan):
     cm = _cfgmod
     res = new_result()
@@ -382,10 +402,12 @@ def run(plan):
                     val = {(lf.replace("_", "-") if dash else lf): v for lf, dash, v in it["map"]}
                     mval = {lf: v for lf, dash, v in it["map"]}
                 else:
-                    val = mval = _FALSY.get(it["val"], it["val"]) if isinstance(it["val"], str) else it[
-                        "val"]
+                    val = mval = _value(it["val"]) if isinstance(it["val"], str) else it["val"]
                     if isinstance(it["val"], str):
-                        bump(probes, "falsy_value_set")
+                        bump(probes, "sequence_value_set" if it["val"].startswith("L") else
+                             "falsy_value_set")
+                    if len(sp) >= 4:
+                        bump(probes, "path_depth_ge_4")
                 as_kw = op.get("form") == "kw" or (both and (it.get("_force") == "kw" or (
                     it.get("_force") is None and q_ % 2 == 1)))
                 if any("__" in x or "--" in x for x in sp):
@@ -523,8 +545,30 @@ def run(plan):
                 sp = ".".join(_spell(op["path"]))
                 want = m_lookup(M, _npath(op["path"]))
                 note_spelling(_spell(op["path"]), _npath(op["path"]))
+                ov = op.get("override")
+                if ov is not None:
+                    # override_with: passed straight back unless it is None
+                    oval = {"O7": 7, "O0": 0, "OFalse": False, "Oempty": "", "ONone": None}[ov]
+                    bump(probes, "get_override_with")
+                    try:
+                        got = cm.get(sp, "DFLT", override_with=oval, **kw) if op["default"] else \
+                            cm.get(sp, override_with=oval, **kw)
+                    except (KeyError, TypeError, IndexError) as e:
+                        if oval is not None or want is not _ABSENT or op["default"]:
+                            viol("get_mismatch", f"{tag}: get({sp!r}, override_with={oval!r}) raised "
+                                 f"{e!r}", "get_mismatch:override_raised")
+                        return
+                    if oval is not None:
+                        if got is not oval:
+                            viol("get_mismatch", f"{tag}: get({sp!r}, override_with={oval!r}) returned "
+                                 f"{got!r}", "get_mismatch:override")
+                        return
+                    # override_with=None: an ordinary read (falls through to the checks below)
+                    op = dict(op, _got=got)
                 try:
-                    if op["default"]:
+                    if "_got" in op:
+                        got = op["_got"]
+                    elif op["default"]:
                         got = cm.get(sp, "DFLT", **kw)
                     else:
                         got = cm.get(sp, **kw)
